@@ -767,6 +767,18 @@ func (env *specEnv) call(e *ast.CallExpr) Value {
 				out := b
 				out.Obj = &obj
 				return out
+			case "samebits":
+				// samebits(a, b): the two values are the same bit pattern (for float64 this is stronger
+				// than ==, which is an uninterpreted IEEE comparison here)
+				a, b := env.eval(e.Args[0]), env.eval(e.Args[1])
+				if len(a.L) != len(b.L) {
+					unsup("samebits of different shapes")
+				}
+				cs := []Term{}
+				for i := range a.L {
+					cs = append(cs, Eq(a.L[i], b.L[i]))
+				}
+				return Value{T: types.Typ[types.Bool], L: []Term{And(cs...)}}
 			case "sameobj":
 				a, b := env.eval(e.Args[0]), env.eval(e.Args[1])
 				return Value{T: types.Typ[types.Bool], L: []Term{Eq(a.L[0], b.L[0])}}
